@@ -158,7 +158,11 @@ def dump(sp):
         n = type(i).__name__
         return {"Flat": "F", "Transparent": "T"}.get(n, "?" + n) if hasattr(i, "specular_reflection_matrix") else "!" + n
     o = lambda x: "-" if x is None else str(getattr(x, "tag", "?"))
-    return "[%s|%s|%s|%s]" % (",".join(lay(l) for l in sp.layers), ",".join(ifc(i) for i in sp.interfaces), o(sp.substrate), o(sp.atmosphere))
+    try:
+        zs = ",".join(str(int(round(float(v)))) for v in sp.z)         # the depth view, read after every operation (thicknesses are integers here)
+    except Exception as e:  # noqa
+        zs = "ERR:" + type(e).__name__
+    return "[%s|%s|%s|%s|z=%s]" % (",".join(lay(l) for l in sp.layers), ",".join(ifc(i) for i in sp.interfaces), o(sp.substrate), o(sp.atmosphere), zs)
 
 
 def wellformed(sp):
